@@ -18,6 +18,7 @@ VERIF = os.path.dirname(os.path.dirname(os.path.dirname(os.path.abspath(__file__
 
 
 def inner(prop, n, workers):
+    os.environ.setdefault("KRROOD_VERIF", "1")
     sys.path.insert(0, VERIF)
     sys.path.insert(0, os.environ.get("KRROOD_SRC", "/repo/src"))
     import importlib
